@@ -522,6 +522,106 @@ def build_dimuse(cf: str, red: str, use: str) -> tuple[Callable, list]:
         return f, [("B", 4)]
     raise ValueError(cf)
 
+# ---- opset-gated components (kind "gated"): component × control-flow wrapper × element type; exported with a
+#      normalization_mode.  Shape (2, 6); every component preserves shape and dtype.
+
+GATED_DTYPES = {"f32": jnp.float32, "f16": jnp.float16, "bf16": jnp.bfloat16}
+GATED_WRAPS = ["top", "scan", "fori", "cond", "while", "scan_cond"]
+_GATED_CACHE: dict = {}
+
+
+def _gated_component(comp: str, dtype) -> Callable:
+    key = (comp, str(dtype))
+    if key in _GATED_CACHE:
+        return _GATED_CACHE[key]
+    from flax import linen, nnx
+
+    def keep(f):
+        return lambda x: f(x).astype(x.dtype)
+
+    if comp == "rms_nnx":
+        m = nnx.RMSNorm(6, rngs=nnx.Rngs(0))
+        f = keep(lambda x: m(x))
+    elif comp == "ln_nnx":
+        m = nnx.LayerNorm(6, rngs=nnx.Rngs(0))
+        f = keep(lambda x: m(x))
+    elif comp == "rms_linen":
+        half = dtype != jnp.float32
+        m = linen.RMSNorm(dtype=dtype, param_dtype=dtype, force_float32_reductions=not half) if half \
+            else linen.RMSNorm()
+        v = m.init(jax.random.PRNGKey(0), jnp.ones((2, 6), dtype))
+        f = keep(lambda x: m.apply(v, x))
+    elif comp == "ln_linen":
+        half = dtype != jnp.float32
+        m = linen.LayerNorm(dtype=dtype, param_dtype=dtype, force_float32_reductions=not half) if half \
+            else linen.LayerNorm()
+        v = m.init(jax.random.PRNGKey(0), jnp.ones((2, 6), dtype))
+        f = keep(lambda x: m.apply(v, x))
+    elif comp == "silu":
+        f = keep(jax.nn.silu)
+    elif comp == "xsig":
+        f = keep(lambda x: x * jax.nn.sigmoid(x))
+    elif comp == "gelu":
+        f = keep(lambda x: jax.nn.gelu(x, approximate=False))
+    elif comp == "softmax":
+        f = keep(lambda x: jax.nn.softmax(x, axis=-1))
+    elif comp == "meanvar":
+        f = keep(lambda x: (x - x.mean(axis=-1, keepdims=True)) * jnp.sqrt(x.var(axis=-1, keepdims=True) + 1.0))
+    elif comp == "attention":
+        def att(x):
+            q = x.reshape((1, 2, 2, 3))
+            return nnx.dot_product_attention(q, q, q).reshape(x.shape)
+        f = keep(att)
+    elif comp == "dus":
+        f = keep(lambda x: lax.dynamic_update_slice(x, jnp.ones((2, 2), x.dtype), (0, 1)))
+    elif comp == "iota":
+        f = keep(lambda x: x + lax.iota(x.dtype, 6))
+    elif comp == "arange":
+        f = keep(lambda x: x + jnp.arange(6, dtype=x.dtype))
+    elif comp == "arange_dyn":
+        f = keep(lambda x: x + jnp.arange(x.shape[-1], dtype=x.dtype) * 0.5)
+    elif comp == "cumsum":
+        f = keep(lambda x: jnp.cumsum(x, axis=-1))
+    elif comp == "logsumexp":
+        f = keep(lambda x: x - jax.nn.logsumexp(x, axis=-1, keepdims=True))
+    else:
+        raise ValueError(comp)
+    _GATED_CACHE[key] = f
+    return f
+
+
+GATED_COMPS = ["rms_nnx", "ln_nnx", "rms_linen", "ln_linen", "silu", "xsig", "gelu", "softmax", "meanvar",
+               "attention", "dus", "iota", "arange", "arange_dyn", "cumsum", "logsumexp"]
+
+
+def build_gated(comp: str, wrap: str, dtype_name: str) -> tuple[Callable, list]:
+    dtype = GATED_DTYPES[dtype_name]
+    c = _gated_component(comp, dtype)
+    if wrap == "top":
+        f = c
+    elif wrap == "scan":
+        def f(x):
+            return lax.scan(lambda s, _: ((c(s) * 0.5 + 0.25).astype(s.dtype), s), x, None, length=2)[1]
+    elif wrap == "fori":
+        def f(x):
+            return lax.fori_loop(0, 2, lambda i, s: c(s), x)
+    elif wrap == "cond":
+        def f(x):
+            return lax.cond(x.sum() > 0, c, lambda a: (a * 0.5).astype(a.dtype), x)
+    elif wrap == "while":
+        def f(x):
+            return lax.while_loop(lambda s: s[0] < 2, lambda s: (s[0] + 1, c(s[1])), (0, x))[1]
+    elif wrap == "scan_cond":
+        def f(x):
+            def body(s, _):
+                s2 = lax.cond(s.sum() > 0, c, lambda a: (a * 0.5).astype(a.dtype), s)
+                return s2, s2
+            return lax.scan(body, x, None, length=2)[1]
+    else:
+        raise ValueError(wrap)
+    return f, [jax.ShapeDtypeStruct((2, 6), dtype)]
+
+
 # fixed nested tree programs that are always part of the core set
 FIXED_TREES: dict[str, list] = {
     "fori_in_fori": ["seq", [["fori", 2, ["seq", [["fori", 3, ["seq", [["un", "sin"], ["un", "mul2"]]]],
@@ -575,6 +675,8 @@ def prog_fn_and_shapes(desc: dict) -> tuple[Callable, list]:
     if k == "named":
         fn, shapes = NAMED[desc["name"]]
         return fn, [tuple(s) for s in shapes]
+    if k == "gated":
+        return build_gated(desc["comp"], desc["wrap"], desc.get("dtype", "f32"))
     if k == "dimuse":
         fn, shapes = build_dimuse(desc["cf"], desc["red"], desc["use"])
         return fn, [tuple(s) for s in shapes]
@@ -649,6 +751,9 @@ def _specs(shapes: list, cfg: dict) -> list:
     out = []
     dt = jnp.float64 if cfg.get("dp") else jnp.float32
     for s in shapes:
+        if isinstance(s, jax.ShapeDtypeStruct):
+            out.append(s)
+            continue
         s2 = tuple((d if cfg.get("symbolic", True) else (2 if d == "B" else 5)) if d in ("B", "T") else d
                    for d in s)
         out.append(jax.ShapeDtypeStruct(s2, dt))
@@ -686,6 +791,8 @@ def export(desc: dict, cfg: Optional[dict] = None, use_cache: bool = True) -> Ex
                 kw["inputs_as_nchw"] = list(cfg["in_nchw"])
             if cfg.get("out_nchw") is not None:
                 kw["outputs_as_nchw"] = list(cfg["out_nchw"])
+            if cfg.get("norm_mode"):
+                kw["normalization_mode"] = cfg["norm_mode"]
             if cfg.get("in_names"):
                 kw["input_names"] = [f"user_in_{i}" for i in range(len(shapes))]
             res = to_onnx(fn, _specs(shapes, cfg), **kw)
@@ -847,6 +954,10 @@ def random_cfg(rng: common.Rng, desc: dict, opsets: Optional[list[int]] = None) 
         cfg["in_nchw"] = rng.choice([None, [0]])
         cfg["out_nchw"] = rng.choice([None, [0]])
     return cfg
+
+
+def gated_desc(comp: str, wrap: str, dtype: str = "f32") -> dict:
+    return {"kind": "gated", "name": f"{comp}@{wrap}:{dtype}", "comp": comp, "wrap": wrap, "dtype": dtype}
 
 
 def describe(desc: dict) -> str:
